@@ -340,6 +340,13 @@ pub fn boundary_families(full: bool) -> Vec<(String, String)> {
             }
         }
     }
+    // percent-encoded characters of 1..4 bytes in tag suffixes, verbatim tags and %TAG prefixes (each %XX is three characters of input)
+    for esc in ["%21", "%C3%A9", "%E2%82%AC", "%F0%9F%98%80", "%C3%A9%21%E2%82%AC"] {
+        push("bf:tag-escapes", format!("- !caf{esc} value\n- next: 1\n"));
+        push("bf:tag-escapes", format!("!<x:{esc}y> a\n"));
+        push("bf:tag-escapes", format!("%TAG !e! tag:e{esc}:\n--- !e!t{esc} v # c\n...\n--- [x\n"));
+        push("bf:tag-escapes", format!("k: !!s{esc} v\nj: [!t{esc} a, b]\n"));
+    }
     // inputs ending after every token kind, with and without final break
     for t in ["a", "- a", "- ", "-", "k:", "k: v", "? k", "? ", ": v", "[a", "[a,", "[a]", "{a", "{a: b", "{a: b}", "&a", "&a b", "*a", "!t", "!!str a", "|", ">", "|+", "|-", ">2", "'a'", "'a", "\"a\"", "\"a", "\"a\\", "---", "--- a", "...", "%YAML 1.2", "%TAG ! x", "# c", "a #c", "a:", "a: |", "- |", "- >-", "k: |2", "k: &a", "k: !t", "k: *a"] {
         push("bf:ending", t.to_string());
